@@ -31,7 +31,7 @@ var reserved = map[string]bool{"id": true, "type": true, "meta": true, "relation
 
 // (JSON:API member names may also hold any character from U+0080 up: a
 // letter and a symbol stand for those, drawn less often than the ASCII ones.)
-var nameInner = []rune("abcrA1-_abcrA1-_abcrA10-_é€")
+var nameInner = []rune("abcrA1-_abcrA1-_abcrA10-_é€ ")
 var nameEdge = []rune("abcrA1abcrA1abcrA10é€")
 
 // Name draws a JSON:API member name: [a-z0-9] at both ends, '-' and '_' allowed
@@ -96,7 +96,7 @@ func NamePool(t *rapid.T, n int, label string) []string {
 			}
 		case 6: // an earlier name with something in front: r -> ar, r -> b1r
 			base := rapid.SampledFrom(pool).Draw(t, label+"-base")
-			s = rapid.SampledFrom([]string{"a", "r", "b1", "c-", "1_"}).Draw(t, label+"-front") + base
+			s = rapid.SampledFrom([]string{"a", "r", "u", "b1", "c-", "1_"}).Draw(t, label+"-front") + base
 		case 7: // an earlier name with a zero in front of a digit: a1 -> a01
 			base := rapid.SampledFrom(pool).Draw(t, label+"-base")
 			if i := strings.IndexAny(base, "0123456789"); i >= 0 {
